@@ -152,6 +152,9 @@ def bounded_subfields(reg, tier, seed):
                 cands = list(cands) + [b"FirstName STRING RW SV Test\nLastName STRING RW SV User\x00", b"Title STRING RW SV \x00", b"Title STRING RW DS \x00",
                                        b"Title STRING RW DS \nLastName STRING RW DS Resident\x00", b"AttachItemID STRING RW SV 1f4ffb55-022e-49fb-8c63-6f159aed9b24\x00",
                                        b"A STRING RW SV x\nB STRING RW SV \nC STRING RW SV z\x00", b"\x00", b""]
+            if var == "Bitmap":
+                # a parcel bitmap is 64 x 64 bits
+                cands = list(cands) + [bytes(512), bytes([0xAA]) * 512, bytes(range(256)) * 2, bytes(rng.getrandbits(8) for _ in range(512))]
             if var == "Throttles":
                 import struct as st__
                 cands = list(cands) + [st__.pack("<7f", 0.0, 0.0, 0.0, 0.0, 0.0, 0.0, 0.0), st__.pack("<7f", -0.0, 0.0, 1.0, 2.0, 3.0, 4.0, 5.0),
